@@ -114,7 +114,7 @@ def run(tier):
         e = exp[g["id"]]
         if g["res"] != e["res"]:
             mism += 1
-            kind = "timeout-misclassified" if "pingtimeout" in (g["res"], e["res"]) else "result-class"
+            kind = "loop-does-not-end" if g["res"] == "no-return" else "timeout-misclassified" if "pingtimeout" in (g["res"], e["res"]) else "result-class"
             verd.witness(kind, "/".join(e["s"]), "script %s: expected %s after %d pings, KeepAlive returned %s after %d" % (e["s"], e["res"], e["pings"], g["res"], g["pings"]),
                          {"script": e["s"], "expected": e, "got": g})
         elif g["pings"] != e["pings"]:
